@@ -4,6 +4,7 @@ import Mkdb.Proofs.RefineScan
 import Mkdb.Proofs.RefineInsert
 import Mkdb.Proofs.FlushReload3
 import Mkdb.Proofs.LeafChain
+import Mkdb.Proofs.BSearch
 /-!
 # C11 — the on-disk B+ tree keeps its shape invariants
 
@@ -413,3 +414,90 @@ example : ∃ s t, Holds s t ∧ Inv t s.hdr.nextFree ∧ MemFiled s ∧ SyncedT
   exact ⟨s', _, h'.holds, h'.inv, h'.filed, h'.synced, by decide, by decide⟩
 
 end Mkdb.Store
+
+/-!
+## The search inside a page: `btreeNode.findCellOffsetByKey`
+
+Every lookup, insert, value change and deletion finds its cell (and every descent its child) with the
+binary search of `findCellOffsetByKey`.  The heap model states the search by its result (`Store.findPos`:
+the number of keys below the key, and whether the key stands there); `Mkdb.BSearch.loop` is the loop as
+written - `low`, `high`, `mid` as Go ints, `high = -1` on an empty node, an index outside the slot array
+a panic.  Quantifier: every slot array of any length, every key; no bound.
+-/
+namespace Mkdb.BSearch
+
+/-- on the strictly ascending slot arrays the shape invariant gives every page, the loop of
+`findCellOffsetByKey` returns exactly the insertion point and hit flag the heap model (and through it
+every C01 / C11 theorem) takes for granted -/
+theorem C11_binary_search_is_the_insertion_point (keys : List Nat) (k : Nat)
+    (hs : keys.Pairwise (· < ·)) :
+    search keys k = .ret (Mkdb.Store.findPos keys k).1 (Mkdb.Store.findPos keys k).2 := by
+  rw [← spec_eq_findPos]
+  exact loop_spec keys k hs _ 0 _ rfl (by omega) (by omega) (by omega)
+    (fun i _ h => by omega) (fun i hi h => by omega)
+
+/-- ... so it reports a hit exactly for the keys the page holds, at the slot that holds them -/
+theorem C11_binary_search_finds_exactly_the_stored_keys (keys : List Nat) (k : Nat)
+    (hs : keys.Pairwise (· < ·)) :
+    (∃ p, search keys k = .ret p true) ↔ k ∈ keys := by
+  rw [C11_binary_search_is_the_insertion_point keys k hs]
+  constructor
+  · rintro ⟨p, h⟩
+    injection h with _ hf
+    have : keys[(Mkdb.Store.findPos keys k).1]? = some k := by
+      simpa [Mkdb.Store.findPos] using hf
+    exact List.mem_of_getElem? this
+  · intro hk
+    obtain ⟨j, hj, rfl⟩ := List.getElem_of_mem hk
+    have hsorted := List.pairwise_iff_getElem.mp hs
+    have hsp : spec keys keys[j] = (j, keys[j]? == some keys[j]) :=
+      spec_of_bounds keys _ j (by omega) (fun i hi hij => hsorted i j hi hj hij) (fun _ => by omega)
+    rw [← spec_eq_findPos, hsp]
+    exact ⟨j, by simp [List.getElem?_eq_getElem hj]⟩
+
+/-- and on a miss the position returned is where the key belongs: everything before it is smaller,
+everything from it on is larger (what `insertLeafCell` / `insertInternalCell` and the descent rely on) -/
+theorem C11_binary_search_miss_is_the_insertion_point (keys : List Nat) (k p : Nat)
+    (hs : keys.Pairwise (· < ·)) (h : search keys k = .ret p false) :
+    p ≤ keys.length ∧ (∀ i (hi : i < keys.length), i < p → keys[i] < k) ∧
+      (∀ i (hi : i < keys.length), p ≤ i → k < keys[i]) := by
+  rw [C11_binary_search_is_the_insertion_point keys k hs] at h
+  injection h with hp hf
+  have hsorted := List.pairwise_iff_getElem.mp hs
+  simp only [Mkdb.Store.findPos] at hp hf
+  obtain ⟨h1, h2, h3⟩ := takeWhile_length_spec (P := fun x => decide (x < k)) keys
+  rw [hp] at h1 h2 h3
+  have hle : p ≤ keys.length := h1
+  have hbelow : ∀ i (hi : i < keys.length), i < p → keys[i] < k := by
+    intro i hi hip; simpa using h2 i hi hip
+  have hat : ∀ (hp' : p < keys.length), k < keys[p] := by
+    intro hp'
+    have h1 : ¬ keys[p] < k := by simpa using h3 hp'
+    have h2 : keys[p] ≠ k := by
+      intro he
+      rw [hp, List.getElem?_eq_getElem hp', he] at hf
+      simp at hf
+    omega
+  refine ⟨hle, hbelow, fun i hi hpi => ?_⟩
+  by_cases hip : i = p
+  · subst hip; exact hat hi
+  · have := hsorted p i (by omega) hi (by omega)
+    have := hat (by omega)
+    omega
+
+/-- on ANY slot array - ascending or not, with duplicate keys or not, empty or full - the loop ends,
+never indexes outside the array (no panic), answers a position within `0 .. len`, and a reported hit is
+a real one: a page whose keys were damaged cannot crash or hang the search (C18's concern, C11's code) -/
+theorem C11_binary_search_never_leaves_the_slot_array (keys : List Nat) (k : Nat) :
+    ∃ p f, search keys k = .ret p f ∧ p ≤ keys.length ∧ (f = true → keys[p]? = some k) :=
+  loop_total keys k _ 0 _ rfl (by omega) (by omega) (by omega)
+
+/-- non-vacuity: a 7-slot page; a hit in the middle, a miss between two keys, a miss beyond the end,
+the empty page; and an array that is NOT ascending, on which the loop misses a key that is there
+(the sortedness hypothesis of the first three theorems is needed) -/
+example : search [2, 3, 5, 7, 11, 13, 17] 7 = .ret 3 true ∧ search [2, 3, 5, 7, 11, 13, 17] 8 = .ret 4 false ∧
+    search [2, 3, 5, 7, 11, 13, 17] 99 = .ret 7 false ∧ search [] 1 = .ret 0 false ∧
+    search [9, 1, 5] 9 = .ret 3 false := by
+  refine ⟨?_, ?_, ?_, ?_, ?_⟩ <;> simp [search, loop]
+
+end Mkdb.BSearch
